@@ -60,6 +60,10 @@ def run(chk, args):
         for e in c["expect"]:
             k = "rv:%s/%s" % (c["cs"]["method"], e["res"])
             classes[k] = classes.get(k, 0) + 1
+        for pl in c["polls"]:
+            if pl["status"] in (301, 302, 303, 307, 308):
+                k = "rv:%s/redirect/front=%s/location=%s" % (c["cs"]["method"], c["cs"]["front"], pl["location"])
+                classes[k] = classes.get(k, 0) + 1
         if len(c["polls"]) > 1:
             k = "rv:%s/sequence/front=%s/cache=%s" % (c["cs"]["method"], c["cs"]["front"], c["cs"]["cache"])
             classes[k] = classes.get(k, 0) + 1
@@ -70,6 +74,9 @@ def run(chk, args):
         n += s.get("exchanges", 0)
     chk.note("Rendezvous: %d rendezvous objects, %d exchanges through the real client code (sequences of 1..3 polls per object)" % (len(cases), n))
     for need in ("rv:http/data", "rv:http/error", "rv:amp/data", "rv:amp/error", "rv:amp/any",
+                 "rv:http/redirect/front=front/location=other", "rv:http/redirect/front=front/location=relative",
+                 "rv:http/redirect/front=none/location=same", "rv:http/redirect/front=front/location=none",
+                 "rv:amp/redirect/front=front/location=other", "rv:amp/redirect/front=none/location=relative",
                  "rv:http/sequence/front=front/cache=none", "rv:amp/sequence/front=front/cache=none",
                  "rv:amp/sequence/front=front/cache=root", "rv:amp/sequence/front=none/cache=path"):
         if not classes.get(need):
